@@ -47,6 +47,7 @@ Definition addrxlat_doc (s : Z) : bool :=
 (** if (status == ADDRXLAT_OK) return KDUMP_OK;
     if (status < 0) ret = -status;
     else if (status == ADDRXLAT_ERR_NODATA) ret = KDUMP_ERR_NODATA;
+    else if (status == ADDRXLAT_ERR_NOMEM) ret = KDUMP_ERR_SYSTEM;      (fixes/108)
     else ret = KDUMP_ERR_ADDRXLAT;
     set_error(ctx, ret, "%s", ...); return ret;          (status flag: message added) *)
 Definition addrxlat2kdump_gen (bounded : bool) (status : Z) : Z * bool :=
@@ -55,6 +56,7 @@ Definition addrxlat2kdump_gen (bounded : bool) (status : Z) : Z * bool :=
     let ret := if (status <? 0) && (negb bounded || (- KDUMP_ERR_ADDRXLAT <=? status))
                then u32 (- status)
                else if status =? ADDRXLAT_ERR_NODATA then KDUMP_ERR_NODATA
+               else if status =? ADDRXLAT_ERR_NOMEM then KDUMP_ERR_SYSTEM
                else KDUMP_ERR_ADDRXLAT in
     (ret, true).
 
@@ -64,6 +66,16 @@ Definition addrxlat2kdump_gen (bounded : bool) (status : Z) : Z * bool :=
     other custom code of an application callback becomes KDUMP_ERR_ADDRXLAT.
     Before it ([bounded = false]) -100 became the undocumented status 100. *)
 Definition addrxlat2kdump := addrxlat2kdump_gen true.
+
+(** set_error()/kdump_err(): "if (status == KDUMP_ERR_SYSTEM && !err_str(&ctx->err))
+    err_add(&ctx->err, "%s", strerror(errno));" — a system-class status arriving on an empty
+    chain gets the text of errno as the innermost message before the new message is added.
+    [errtxt] is strerror(errno); the result is the chain the new message is prepended to. *)
+Definition sys_innermost {A : Type} (status : Z) (old errtxt : list A) : list A :=
+  match old with
+  | [] => if status =? KDUMP_ERR_SYSTEM then errtxt else []
+  | _ :: _ => old
+  end.
 
 (** if (status == KDUMP_OK) return ADDRXLAT_OK;
     if (status == KDUMP_ERR_NODATA) ret = ADDRXLAT_ERR_NODATA; else ret = -status;
